@@ -11,11 +11,12 @@ try:
     hook_commits = [l.split()[0] for l in hooks if " verif hook " in " " + l]
 except Exception:
     hook_commits = []
+READY = set(open(os.path.join(V, "tools", "ready.txt")).read().split())
 checks = []; na = []
 for pr in props:
     pid = pr["id"]
     pl = plans.get(pid)
-    if not pl or not pl.get("ready"):
+    if not pl or pid not in READY:
         na.append(dict(property_id=pid, reason=(pl or {}).get("disabled_reason", "check not built yet (work in progress)")))
         continue
     c = dict(property_id=pid,
